@@ -12,6 +12,14 @@ Empty ==
    CaseOf("C16/empty/for", <<Lp("i", <<>>)>>), CaseOf("C16/empty/forcond", <<Def1("n", I(0)), ForCond(CmpE("<", Var("n"), I(0)), <<>>)>>),
    CaseOf("C16/empty/func", <<Func("f", <<>>, <<>>, <<>>), ExprS(CallE("f", <<>>))>>), CaseOf("C16/empty/switch", <<Switch(I(1), <<>>, <<>>, FALSE)>>),
    CaseOf("C16/empty/case", <<Switch(I(1), <<CaseB(I(1), <<>>), CaseB(I(2), <<>>)>>, <<>>, TRUE)>>), CaseOf("C16/empty/range", <<RangeS("i", "", StrL("ab"), <<>>)>>),
+   \* loops without a condition and without a statement (round 16: `while true; do` directly followed by `done`), in a function that is never reached at run time
+   CaseOf("C16/empty/forinf", <<Func("spin", <<>>, <<>>, <<ForInf(<<>>)>>), L("e")>>), CaseOf("C16/empty/for3none", <<Func("spin", <<>>, <<>>, <<For3(NoneN, NoneN, NoneN, <<>>)>>), L("e")>>),
+   CaseOf("C16/empty/fortrue", <<Func("spin", <<>>, <<>>, <<ForCond(T, <<>>)>>), L("e")>>),
+   CaseOf("C16/empty/forinf-in-if", <<Func("spin", <<Param("n", "int")>>, <<>>, <<If1(CmpE(">", Var("n"), I(5)), <<ForInf(<<>>)>>), L("s")>>), ExprS(CallE("spin", <<I(1)>>))>>),
+   CaseOf("C16/empty/forinf-nested", <<Func("spin", <<>>, <<>>, <<Lp("i", <<ForInf(<<>>)>>)>>), L("e")>>),
+   CaseOf("C16/empty/for3-nopost", <<For3(Def1("i", I(0)), CmpE("<", Var("i"), I(0)), NoneN, <<>>), L("e")>>),
+   CaseOf("C16/empty/else-only", <<IfElse(T, <<L("t")>>, <<>>)>>), CaseOf("C16/empty/then-only", <<IfElse(T, <<>>, <<L("f")>>)>>),
+   CaseOf("C16/empty/default-only", <<Switch(I(1), <<>>, <<>>, TRUE)>>), CaseOf("C16/empty/func-result", <<Func("f", <<>>, <<"int">>, <<RetS(<<I(1)>>)>>)>>),
    CaseOf("C16/empty/program", <<>>), CaseOf("C16/empty/nested", <<Lp("i", <<If1(T, <<Lp("j", <<>>)>>)>>)>>),
    CaseOf("C16/empty/funcs-only", <<Func("f", <<>>, <<"int">>, <<RetS(<<I(1)>>)>>), Func("g", <<>>, <<>>, <<L("g")>>)>>)}
 RECURSIVE Deep(_, _)
